@@ -2643,7 +2643,7 @@ BUFR_Dataset  *bufr_decode_message_subsets( BUFR_Message *msg, BUFR_Tables *tabl
          }
 
       j = 1;
-      node = lst_firstnode( bseq[0]->list );
+      node = (nbsubset1 > 0) ? lst_firstnode( bseq[0]->list ) : NULL;   /* a message may announce no subset at all */
       while ( node )
          {
          cb = (BufrDescriptor *)node->data;
